@@ -34,6 +34,7 @@ def step (s : DState) (line : String) : DState × String :=
   | ["ovl", c, a] => (s, ovlLine c a)
   | ["gen", t] => (s, genLine t)
   | ["heap", o, sc] => (s, heapLine o sc)
+  | ["life", o] => (s, lifeLine o)
   | ["flag", n, o] => (s, flagLine n o)
   | ["cli", c, a, e] => (s, cliLine c a e)
   | ["sem", p, e, a] => (s, semLine p e a)
